@@ -437,15 +437,6 @@ impl MqttState {
     }
 
     fn handle_incoming_pubcomp(&mut self, pubcomp: &PubComp) -> Result<Option<Packet>, StateError> {
-        let outgoing = self.check_collision(pubcomp.pkid).map(|publish| {
-            let pkid = publish.pkid;
-            let event = Event::Outgoing(Outgoing::Publish(pkid));
-            self.events.push_back(event);
-            self.collision_ping_count = 0;
-
-            Packet::Publish(publish)
-        });
-
         if !self.outgoing_rel.contains(pubcomp.pkid as usize) {
             error!("Unsolicited pubcomp packet: {:?}", pubcomp.pkid);
             return Err(StateError::Unsolicited(pubcomp.pkid));
@@ -461,6 +452,21 @@ impl MqttState {
         }
 
         self.inflight -= 1;
+
+        // the id is free again: a publish parked on it goes on the wire now and is
+        // inflight like any other
+        let outgoing = self.check_collision(pubcomp.pkid).map(|publish| {
+            let pkid = publish.pkid;
+            self.outgoing_pub[pkid as usize] = Some(publish.clone());
+            self.inflight += 1;
+
+            let event = Event::Outgoing(Outgoing::Publish(pkid));
+            self.events.push_back(event);
+            self.collision_ping_count = 0;
+
+            Packet::Publish(publish)
+        });
+
         Ok(outgoing)
     }
 
